@@ -309,6 +309,124 @@ def sftp_get_names(n: int, i0: int, i1: int, i2: int, i3: int, kind: int, preser
     return True
 
 
+class _LinkFS:
+    """Destination file system model that knows about the symlinks the copy itself creates: every operation is logged
+    with the path it really touches (links in any path component followed, as the OS would)."""
+
+    def __init__(self, log, dirs):
+        self.log = log
+        self.links = {}
+        self.dirs = set(dirs)
+
+    encode = S.LocalFS.encode
+    compose_path = S.LocalFS.compose_path
+
+    def resolve(self, path, final=True):
+        parts = [c for c in path.split(b'/') if c]
+        cur = b''
+        for i, c in enumerate(parts):
+            cur = cur + b'/' + c
+            last = i == len(parts) - 1
+            if cur in self.links and (final or not last):
+                cur = posixpath.normpath(self.links[cur])
+        return cur or b'/'
+
+    async def isdir(self, path):
+        return self.resolve(path) in self.dirs
+
+    async def exists(self, path):
+        r = self.resolve(path)
+        return r in self.dirs or path in self.links
+
+    async def mkdir(self, path):
+        r = self.resolve(path, final=False)
+        self.log.append(('mkdir', r))
+        self.dirs.add(r)
+
+    async def setstat(self, path, attrs, *, follow_symlinks=True):
+        self.log.append(('setstat', self.resolve(path, final=follow_symlinks)))
+
+    async def symlink(self, target, path):
+        r = self.resolve(path, final=False)
+        self.log.append(('symlink', r))
+        if r in self.links or r in self.dirs:
+            raise S.SFTPFailure('exists')
+        self.links[r] = target
+
+    async def open(self, path, mode='wb', **k):
+        self.log.append(('open', self.resolve(path)))
+        raise S.SFTPFailure('stub')
+
+
+def sftp_get_dup_names(first: int, second: int, preserve: bool, glob: bool = False) -> bool:
+    """Recursive get where the server lists the same name twice with different
+    types (file / directory / symlink to a place outside): with the symlinks the
+    download itself creates taken into account, every path really touched is
+    inside the destination."""
+    dst = b'/dl/d'
+    log = []
+    types = [S.FILEXFER_TYPE_REGULAR, S.FILEXFER_TYPE_DIRECTORY, S.FILEXFER_TYPE_SYMLINK]
+    t1, t2 = pick(types, first), pick(types, second)
+
+    class SrcFS:
+        limits = None
+        basename = staticmethod(S.SFTPClient.basename)
+
+        def encode(self, path):
+            return path
+
+        async def stat(self, path, **k):
+            return SFTPAttrs(type=S.FILEXFER_TYPE_DIRECTORY, permissions=0o755)
+
+        async def scandir(self, path):
+            if path == b'/remote':
+                yield SFTPName(b'x', attrs=SFTPAttrs(type=t1, size=1, permissions=0o644))
+                yield SFTPName(b'x', attrs=SFTPAttrs(type=t2, size=1, permissions=0o644))
+            else:
+                yield SFTPName(b'evil', attrs=SFTPAttrs(type=S.FILEXFER_TYPE_REGULAR, size=1, permissions=0o644))
+
+        async def readlink(self, path):
+            return b'/outside'
+
+        async def open(self, path, mode='rb', **k):
+            class F:
+                async def read(self, size, offset):
+                    return b'z'[offset:offset + size]
+
+                async def close(self):
+                    pass
+            return F()
+
+    cl = S.SFTPClient.__new__(S.SFTPClient)
+
+    class H:
+        version = 3
+        logger = NullLogger()
+        supports_copy_data = False
+
+    cl._handler = H()
+    cl._path_encoding = None
+    cl._path_errors = 'strict'
+    cl._cwd = None
+    errs = []
+    dfs = _LinkFS(log, [b'/dl', b'/dl/d', b'/outside'])
+    if glob:
+        # get('/remote/*', dst, recurse=True): the two entries reach the copy as two glob matches
+        r = drive(cl._begin_copy(SrcFS(), dfs, [b'/remote/*'], dst, 'get', True, preserve, True, False, False,
+                                 16, 1, None, lambda exc: errs.append(exc)))
+    else:
+        r = drive(cl._copy(SrcFS(), dfs, b'/remote', dst, SFTPAttrs(type=S.FILEXFER_TYPE_DIRECTORY), preserve, True, False, False,
+                           16, 1, None, lambda exc: errs.append(exc), False))
+    if r[0] == 'exc' and not isinstance(r[1], (OSError, SFTPError)):
+        return False
+    if r[0] == 'suspended':
+        return False
+    for _, p in log:
+        if not confined(p, dst):
+            return False
+    return True
+
+
 def sftp_glob_names(n: int, i0: int, i1: int, i2: int, i3: int, kind: int, preserve: bool) -> bool:
     """get('/remote/*', dst, recurse=True): for any directory-entry name a
     hostile server returns for /remote (and any listing it returns below it),
@@ -407,6 +525,11 @@ OBLIGATIONS = [
        timeout=150, thorough_timeout=400,
        functions=[S.SFTPClient._begin_copy, S.SFTPGlob.match, S.SFTPGlob._match_pattern, S.SFTPClient._copy],
        bounds='glob download /remote/* with one matching directory entry whose name has length <= 4 over {/ . a}, of type file / directory / symlink; any listing below it returns one file'),
+    Ob('sftp_get_dup_names', sftp_get_dup_names, sym=dict(preserve=B, glob=B),
+       shards=dict(first=[0, 1, 2], second=[0, 1, 2]), timeout=120,
+       functions=[S.SFTPClient._copy, S.SFTPClient._begin_copy, S.SFTPGlob._report_match],
+       bounds='recursive get of a directory, or of the glob dir/*: one remote directory whose listing names "x" twice, each of type file / directory / symlink (target outside the destination); '
+              'destination model follows the symlinks created by the download itself'),
 ]
 
 MANIFEST = dict(
